@@ -19,12 +19,14 @@ import (
 	"os"
 	"sort"
 	"strconv"
+	"strings"
 	"testing"
 	"testing/synctest"
 	"time"
 
 	"github.com/tsuna/gohbase/hrpc"
 	"github.com/tsuna/gohbase/internal/verifsim"
+	"github.com/tsuna/gohbase/pb"
 )
 
 type scanRow struct {
@@ -51,6 +53,9 @@ type scanScenario struct {
 	// lease renewal (hrpc.RenewInterval) with the user pausing between Next calls
 	renew time.Duration
 	think time.Duration
+	// cellblocks compressed (CompressionCodec); empty responses flagged heartbeat_message
+	snappy bool
+	hbFlag bool
 }
 
 type scanRun struct {
@@ -58,6 +63,7 @@ type scanRun struct {
 	events   []verifsim.Ev
 	leftOpen []uint64
 	nexts    int
+	mutated  string // a result that changed after it had been delivered
 }
 
 type cutOption struct{ entries, cutAfter int }
@@ -130,6 +136,7 @@ func runScan(sc scanScenario) scanRun {
 			cut = verifsim.ScanCut{Entries: opts[choice].entries, CutLastAfter: opts[choice].cutAfter}
 		}
 		prevHB = cut.Entries == 0
+		cut.Heartbeat = sc.hbFlag
 		if sc.earlyAtResp == resp {
 			cut.CutLastAfter = 0 // a server ends a scan at a row boundary only
 			if ctx.CurRowCells > 0 && ctx.Remaining > 0 && cut.Entries == 0 {
@@ -139,7 +146,11 @@ func runScan(sc scanScenario) scanRun {
 		}
 		return cut
 	}
-	c := newSimClient(cl, RpcQueueSize(1))
+	copts := []Option{RpcQueueSize(1)}
+	if sc.snappy {
+		copts = append(copts, CompressionCodec("snappy"))
+	}
+	c := newSimClient(cl, copts...)
 	ctx, cancel := context.WithCancel(context.Background())
 	defer cancel()
 	opts := []func(hrpc.Call) error{}
@@ -170,6 +181,8 @@ func runScan(sc scanScenario) scanRun {
 		"reversed", sc.reversed, "partial", sc.partial, "renew", sc.renew > 0)
 	s := c.Scan(scan)
 	terminal := 0
+	var kept []*hrpc.Result // every result handed out, and what it said when it was handed out
+	var keptAs []string
 	for n := 1; n <= 4*len(sc.rows)+8 && terminal < 2; n++ {
 		if sc.closeBefore == n {
 			tr.Emit("userClose")
@@ -190,6 +203,7 @@ func runScan(sc scanScenario) scanRun {
 		ev := map[string]any{"kind": "row", "row": []int{}, "n": 0, "partial": false}
 		switch {
 		case err == nil:
+			kept, keptAs = append(kept, r), append(keptAs, scanResultString(r))
 			if len(r.Cells) > 0 {
 				ev["row"] = verifsim.Bytes(r.Cells[0].Row)
 				for _, cell := range r.Cells {
@@ -233,8 +247,22 @@ func runScan(sc scanScenario) scanRun {
 	}
 	c.Close()
 	synctest.Wait()
+	// a result belongs to the caller once Next has returned it: whatever the client received afterwards must not show in it
+	for i, r := range kept {
+		if now := scanResultString(r); now != keptAs[i] && run.mutated == "" {
+			run.mutated = fmt.Sprintf("result #%d was %s when Next returned it and reads %s after the scan", i+1, keptAs[i], now)
+		}
+	}
 	run.events = tr.Events()
 	return run
+}
+
+func scanResultString(r *hrpc.Result) string {
+	var b strings.Builder
+	for _, c := range r.Cells {
+		fmt.Fprintf(&b, "{%x %s %x ts=%d t=%v %x}", c.Row, c.Family, c.Qualifier, (*pb.Cell)(c).GetTimestamp(), (*pb.Cell)(c).GetCellType(), c.Value)
+	}
+	return b.String()
 }
 
 // scanFlush writes the events the trace specification reads (meta scanners are the lookup machinery, not the scan).
@@ -294,6 +322,9 @@ func TestVerifScan(t *testing.T) {
 		verifsim.Bubble(t, func(t *testing.T) { run = runScan(sc) })
 		scanFlush(ndj, run.events)
 		rep.Scenarios++
+		if run.mutated != "" {
+			rep.bad("delivered-row-changed-afterwards", "%s: %s", sc.name, run.mutated)
+		}
 		if len(run.leftOpen) > 0 {
 			rep.bad("region-scanner-left-open", "%s: region scanners %v were neither exhausted nor closed", sc.name, run.leftOpen)
 		}
@@ -331,7 +362,8 @@ func TestVerifScan(t *testing.T) {
 			for {
 				sc := base
 				sc.script = append([]int{}, script...)
-				sc.name = fmt.Sprintf("small/%d/partial=%v/script=%v", si, partial, script)
+				sc.snappy, sc.hbFlag = count%2 == 1, (count/2)%2 == 1
+				sc.name = fmt.Sprintf("small/%d/partial=%v/script=%v/snappy=%v,hb=%v", si, partial, script, sc.snappy, sc.hbFlag)
 				if endings {
 					// every script is also run with two of the ways to end, rotating kind and position
 					for v := 0; v < 2; v++ {
@@ -467,6 +499,7 @@ func TestVerifScan(t *testing.T) {
 				sc.earlyAtResp = 1 + rng.Intn(4)
 			}
 		}
+		sc.snappy, sc.hbFlag = k%2 == 1, (k/2)%2 == 1 // (not drawn from rng: the scenarios stay those of earlier runs)
 		sc.name = fmt.Sprintf("random/%d", k)
 		do(sc)
 		rep.Distinct++
